@@ -19,7 +19,8 @@ PKGS = ["./cmd/instance"]
 # deviation -> witness classes the model must exhibit with it (sequential configuration)
 DEV_SEQ = {"AliasDefaults": {"cache", "history"}, "CollideEither": {"nondeterministic"}, "StripInPlace": {"argument"},
            "StripRestore": {"argument"}, "DirtyScratch": {"history"}, "EnumEarlyReturn": {"nondeterministic"},
-           "StaleMemo": {"history", "nondeterministic"}, "SharedError": {"history"}}
+           "StaleMemo": {"history", "nondeterministic"}, "SharedError": {"history"},
+           "SortInPlace": {"describe"}, "ConvertInPlace": {"argument"}}
 
 
 def hist_cases(recs, reps, targeted=False):
